@@ -67,16 +67,32 @@ func (l *Linter) lintBlockStatement(block *ast.BlockStatement, ctx *context.Cont
 	l.ignore.SetupBlockStatement(block.GetMeta())
 	defer l.ignore.TeardownBlockStatement(block.GetMeta())
 
-	statements := l.resolveIncludeStatements(block.Statements, ctx, false)
+	l.lintStatements(block.Statements, ctx)
+
+	return types.NeverType
+}
+
+// lintStatements lints the statements of a block in order. The statements of an included module
+// are linted while the module is still marked as being included,
+// so that an include statement nested in one of its blocks is checked against the whole include chain.
+func (l *Linter) lintStatements(statements []ast.Statement, ctx *context.Context) {
 	for _, stmt := range statements {
+		if include, ok := stmt.(*ast.IncludeStatement); ok {
+			if strings.HasPrefix(include.Module.Value, "snippet::") {
+				l.lintStatements(l.resolveSnippetInclusion(include, ctx, false), ctx)
+				continue
+			}
+			l.withFileInclusion(include, ctx, false, func(included []ast.Statement) {
+				l.lintStatements(included, ctx)
+			})
+			continue
+		}
 		func(v ast.Statement, c *context.Context) {
 			l.ignore.SetupStatement(v.GetMeta())
 			defer l.ignore.TeardownStatement(v.GetMeta())
 			l.lint(v, c)
 		}(stmt, ctx)
 	}
-
-	return types.NeverType
 }
 
 func (l *Linter) lintDeclareStatement(stmt *ast.DeclareStatement, ctx *context.Context) types.Type {
